@@ -143,6 +143,29 @@ func (a *Agents) cookieFor(mode string, bid, fi int) (string, bool) {
 		return name + "=" + sid, true
 	case strings.HasPrefix(mode, "fixed:"):
 		return name + "=" + mode[6:], true
+	case strings.HasPrefix(mode, "from-filter:"):
+		// the session id this browser holds at ANOTHER filter, presented under this filter's cookie name
+		o, _ := strconv.Atoi(mode[12:])
+		if o < 0 || o >= len(a.w.Filters) {
+			return "", false
+		}
+		sid := a.sidOf(b, a.w.Filters[o])
+		if sid == "" {
+			return "", false
+		}
+		return name + "=" + sid, true
+	case strings.HasPrefix(mode, "both-from:"):
+		// own cookie for this filter (if any) plus the other filter's cookie under both names
+		o, _ := strconv.Atoi(mode[10:])
+		if o < 0 || o >= len(a.w.Filters) {
+			return "", false
+		}
+		of := a.w.Filters[o]
+		sid := a.sidOf(b, of)
+		if sid == "" {
+			return "", false
+		}
+		return of.Spec.CookieName() + "=" + sid + "; " + name + "=" + sid, true
 	case strings.HasPrefix(mode, "other-name:"):
 		// the browser's own session id under another cookie name
 		sid := a.sidOf(b, f)
